@@ -20,78 +20,97 @@ TRUSTED_BASE = [
 
 PROPS = {
     "C01": dict(
+        level_text='PARTIAL at the proof level so far: proved (closed) — every token the redraw emitters produce re-parses to exactly the intended vte actions from any ground parser state (EmitTokens/ParseSer: reachable_tokens_ok), the emitters never panic (EmitSafe), the invariants the row painter relies on hold in every reachable state (screen_ok, screen_wf, wrapped-row-last-column-occupied: Props/C01wrap), and emitters depend only on the observation (C19). The semantic round trip (row-painter invariant, DESIGN Appendix A) is being proved (Props/C01.v when present); until then it is carried by the differential correspondence of the emitted bytes plus the implementation-level oracle (fresh and dirty receivers, re-emission).',
         families=[("emit", 1200, 40000), ("stream", 600, 20000), ("sb", 300, 8000), ("cursorfix", 800, 20000), ("wrapdiff", 500, 20000)],
         projection="contents_formatted / state_formatted bytes (Emit.contents_formatted_t, state_formatted_t) and the screen state they are computed from",
     ),
     "C02": dict(
+        level_text='PARTIAL: proved (Props/C02.v) — the statement as an executable round trip (DiffRound.diff_round_ok); C02_refuted: the unrestricted statement is FALSE of the model, witness = open finding D10 (replayed on the crate, KNOWN_FINDINGS.txt); C02_total/C02_bytes: for all reachable pairs both diff emitters succeed and every token re-parses to exactly the intended actions; C02_equal_obs(_round): a diff against an observationally equal screen is empty and leaves the receiver alone; C02_example: non-vacuity on an unrelated pair with wide characters and a wrapped row. The semantic statement outside the D10 class is not yet a theorem; it is decided by correspondence of the diff bytes plus the oracle (prefix pairs, independent pairs, chains).',
         families=[("emit", 1500, 60000), ("wrapdiff", 1500, 40000), ("cursorfix", 500, 10000), ("modes", 300, 4000)],
         projection="contents_diff / state_diff bytes (Emit.contents_diff_t, state_diff_t) against snapshots",
     ),
     "C03": dict(
+        level_text='FULL for the state part: Coq theorems C03_process (no operation sequence panics from any construction within bounds, any bytes, any chunking), C03_perform, C03_emitters and C03_text_views (every accessor/emitter for ALL argument values on reachable screens), plus an abstract work bound (C03cost, when present). CPU seconds are measured by the oracle (thread CPU time, every CSI final with 65535 on 50x132 and 132x50), not proved.',
         families=[("acc", 1200, 30000), ("stream", 800, 30000), ("resize", 500, 15000), ("chunk", 300, 8000)],
         projection="panic-vs-panic on every operation and accessor (res monad of the model)",
     ),
     "C04": dict(
+        level_text='FULL modulo the open dependency finding K04a: C04_main (process_chunks equal for any two chunkings of the same bytes that avoid the exact vte trigger k04a), exact characterisation of the vte bug (C04_vte_bug_exact, C04_refuted), io::Write = process.',
         families=[("chunk", 2500, 80000)],
         projection="vte action stream (Vte.advance) and screen + event log under different chunkings",
     ),
     "C05": dict(
+        level_text='FULL: case-by-case closed form of Screen::text under the reachable-state invariant (C05_cases: dropped / fits / wraps / zero-width, with pointwise cell description, frame, cursor, wrap flag), deviations from the prose listed in DESIGN 7.',
         families=[("csi", 1500, 40000), ("stream", 800, 20000)],
         projection="Screen.grid_text: full state before/after printing", model_decides=True,
     ),
     "C06": dict(
+        level_text='FULL: C06_move (closed-form cursor after every movement command for every parameter value, result = same screen with only the cursor changed), DECSTBM and origin mode, bounds.',
         families=[("csi", 2000, 50000)],
         projection="cursor movement handlers of Screen/Grid: full state before/after", model_decides=True,
     ),
     "C07": dict(
+        level_text='FULL: pointwise specification of ED/EL/ECH incl. cut halves and the wrap-flag condition (C07_cells, C07_wrap, C07_grid_unique), unknown modes inert, DEC selective forms identical.',
         families=[("csi", 2000, 50000)],
         projection="erase handlers (scr_ed, scr_el, scr_ech): full state before/after", model_decides=True,
     ),
     "C08": dict(
+        level_text='FULL inside the stated contract: k-fold loops equal one shift (closed forms), pointwise line/cell specs for ICH DCH IL DL SU SD LF RI, frame lemmas; rows outside the region untouched for every n.',
         families=[("csi", 2000, 50000), ("sb", 300, 8000)],
         projection="insert/delete/scroll handlers: full state before/after", model_decides=True,
     ),
     "C09": dict(
-        families=[("sgr", 2500, 60000)],
+        level_text='FULL: table semantics of every single parameter, extended colours incl. colon forms and malformed groups, sequencing, encoder round trip C09_diff for all pen pairs, attributes_formatted on any receiver pen, finite sweep 0..255.',
+        families=[("sgr", 2000, 60000), ("table", 1500, 40000)],
         projection="Screen.sgr, Attrs.sgr_diff, attributes_formatted bytes", model_decides=True,
     ),
     "C10": dict(
-        families=[("modes", 2500, 40000)],
+        level_text='FULL: mode_effect table over the 240-state space, independence from all other state and input (C10_independent), most-recent-wins, formatted/diff round trips for all pairs, emptiness iff equal.',
+        families=[("modes", 2000, 40000), ("table", 1500, 40000)],
         projection="mode fields of the screen, input_mode_formatted / input_mode_diff bytes", model_decides=True,
     ),
     "C11": dict(
+        level_text='FULL: DECSC/DECRC restore (position, origin, pen) across any save-free input, isolation of the inactive grid for every switch-free action, closed forms of 47/1049 entry/exit and all four round trips, alternate grid never has scrollback.',
         families=[("alt", 1500, 40000)],
         projection="both grids, saved cursor and pen across DECSC/DECRC and 47/1049",
     ),
     "C12": dict(
+        level_text='FULL: closed form of scroll_up incl. recording rule and offset rule, history = suffix of all scrolled-off lines bounded by capacity, view formula, view-only theorem (run with set_scrollback calls removed is identical up to the offset, incl. panics), alternate screen never records.',
         families=[("sb", 2000, 50000)],
         projection="scrollback rows, offset, visible rows at every offset",
     ),
     "C13": dict(
+        level_text='FULL: C13_reachable (invariant for every history incl. set_size/set_scrollback), shape/cursor/wide-continuation clauses, cell well-formedness for every cell of every reachable state incl. scrollback (C13_cells_reachable), transition clause for the pending column (C13b when present).',
         families=[("stream", 1200, 40000), ("resize", 1500, 30000), ("cursorfix", 300, 5000)],
         projection="full state dump and public-accessor observation after histories",
     ),
     "C14": dict(
+        level_text='FULL: declarative text specification (rows, contents, contents_between) for all windows/tuples incl. out-of-range, no-panic corollaries.',
         families=[("text", 2500, 60000)],
         projection="contents(), rows(start,width), contents_between() text",
     ),
     "C15": dict(
+        level_text='PARTIAL: window/full-row protocols are being proved with C01 (Props/C15.v when present); rows_formatted/rows_diff never panic for all windows, tokens re-parse, self-diff empty. Until the theorem lands the semantic statement is carried by correspondence of the row bytes plus the protocol oracle.',
         families=[("emit", 1500, 50000), ("wrapdiff", 800, 20000), ("cursorfix", 500, 10000)],
         projection="rows_formatted / rows_diff / cursor_state_formatted / attributes_formatted bytes",
     ),
     "C16": dict(
+        level_text='FULL: sizes, exact clamps, pointwise cell preservation/blanking incl. cut wide characters, scrollback kept, invariant re-established so every other theorem applies afterwards, resize callback.',
         families=[("resize", 2000, 50000)],
         projection="set_size on both grids, state after every resize and after the suffix",
     ),
     "C17": dict(
+        level_text='FULL: vte state after ESC c is exactly p_init, screen is exactly the fresh screen, log only extended by events of a string/character the ESC terminates, later runs identical to a fresh parser up to the log prefix (incl. panics).',
         families=[("stream", 1500, 40000)],
         projection="scr_ris and everything after it",
     ),
     "C18": dict(
-        families=[("csi", 2000, 50000), ("chunk", 500, 10000)],
+        level_text='FULL: events_of table with C18_exact for every action, inertness of reported actions, silence of implemented ones, exactly-one-action theorems for general CSI/ESC/OSC grammars incl. limits.',
+        families=[("csi", 1500, 50000), ("chunk", 500, 10000), ("table", 2500, 40000)],
         projection="callback event log and vte action stream",
     ),
     "C19": dict(
+        level_text='FULL: observation record, all formatted emitters factor through it (no offset-0 hypothesis needed), self/obs-equal diffs empty, concatenation laws; CellBytes refinement shows stale bytes are unobservable.',
         families=[("emit", 1500, 50000), ("cursorfix", 1000, 20000), ("wrapdiff", 500, 10000)],
         projection="all emitters as functions of the observable state",
     ),
